@@ -433,7 +433,7 @@ def run(chk: Check):
     c09.stream_simple(chk, pr, 'const', ['common', 'gitignore'], lambda c: 'const\t' + c, lambda c, x: True)
 
     # ---- opinions: xvc's matcher and git's matcher on generated trees
-    n_trees = 80 if quick else 1000
+    n_trees = 80 if quick else 800
     st = chk.tie['streams'].setdefault('opinions', {'cases': 0, 'disagreements': 0})
     first = None
     for i in range(n_trees):
@@ -453,7 +453,7 @@ def run(chk: Check):
         chk.disagreement('opinions', show_tree(small), t2[0][1], t2[0][2], t2[0][0])
 
     # ---- binary histories
-    n_sc = 45 if quick else 700
+    n_sc = 45 if quick else 350
     bst = chk.tie['streams'].setdefault('binary', {'cases': 0, 'commands': 0, 'disagreements': 0, 'oracle_failures': 0})
     seen_sig = set()
     specs = [dict(s) for s in CORPUS] + [None] * n_sc
